@@ -156,3 +156,46 @@ def install(I):
     def m_senderror_into(I, st, f, args, fr):
         v = args[0]
         return I.ret(st, Enum('MessagingErr', 'SendErr', 0, (v.fields[0],)))
+
+
+def install_notify(I):
+    """tokio::sync::Notify, per the documented contract (DESIGN 3.1). The waiter index of the calling thread is I.waiter_index."""
+    M = I.model
+
+    @M(r'^tokio::sync::Notify::notified$|^Notify::notified$', 'Notify::notified')
+    def m_notified(I, st, f, args, fr):
+        o = obj_at(I, st, args[0])
+        i = I.waiter_index
+        I.shared_op(st, o, 'notified', objects.notify_notified(i), {}, label='wait_handler.notified')
+        return I.ret(st, Agg('Notified', (o, I.mk_int(i, 'usize'))))
+
+    @M(r'^<Notified<.*> as (futures::|std::future::)?Future>::poll$', 'Notified::poll')
+    def m_notified_poll(I, st, f, args, fr):
+        p = args[0]
+        r = p.fields[0] if isinstance(p, Agg) and p.ty == 'Pin' else p
+        n = I.read(st, r.cell, r.path)
+        o, i = n.fields[0], n.fields[1].concrete()
+        res = I.shared_op(st, o, 'poll', objects.notify_poll(i), {'ready': 'bool'}, label='wait_handler.poll')
+        outs = []
+        for s2, rdy in branch(I, st, res['ready']):
+            outs.append(Outcome(s2, 'ret', ready(UNIT) if rdy else PENDING))
+        return outs
+
+    @M(r'^tokio::sync::Notify::notify_waiters$|^Notify::notify_waiters$', 'Notify::notify_waiters')
+    def m_notify_waiters(I, st, f, args, fr):
+        o = obj_at(I, st, args[0])
+        I.shared_op(st, o, 'notify_waiters', objects.notify_waiters(), {}, label='wait_handler.notify_waiters')
+        return I.ret(st, UNIT)
+
+    @M(r'^tokio::sync::Notify::notify_one$|^Notify::notify_one$', 'Notify::notify_one')
+    def m_notify_one(I, st, f, args, fr):
+        o = obj_at(I, st, args[0])
+        choice = z3.BitVec('notify_choice_%d' % fresh_id(), 4)
+        I.shared_op(st, o, 'notify_one', objects.notify_one(choice), {}, label='wait_handler.notify_one', free={'choice': choice})
+        return I.ret(st, UNIT)
+
+    def drop_notified(I, st, v, ref):
+        o, i = v.fields[0], v.fields[1].concrete()
+        I.shared_op(st, o, 'drop_notified', objects.notify_drop(i), {}, label='wait_handler.drop_notified')
+        return I.ret(st, UNIT)
+    I.type_drops['Notified'] = drop_notified
